@@ -1495,50 +1495,106 @@ def trial_modified(ctx, w, trial, oracle_only=False):
                         or ctx.disagree("new XS ids of modified representatives vs _getModifiedReprBlocks", case, line[:300], out[:300])], case)
 
 
+def make_annular(b, frac):
+    """turn a solid fuel slug with the bond around it into an annular slug with the bond in the centre: the same component
+    kinds, but bond and fuel swap places in the radial (sorted) order"""
+    cs = {c.name: c for c in b.getComponents()}
+    f, bo = cs["fuel"], cs["bond"]
+    fod = f.getDimension("od")
+    f.setDimension("id", frac * fod)
+    bo.setDimension("id", 0.0)
+    bo.setDimension("od", frac * fod)
+
+
 def trial_similarity(ctx, w, trial):
-    """_checkBlockSimilarity / _performAverageByComponent on copies of fuel blocks, some of them lacking a component (first, middle
-    or LAST in sorted order), with by-component averaging on or off; what createRepresentativeBlock then does with ragged members is
-    recorded as an observation (no clause of the property covers members without a matching component)"""
+    """by-component averaging over members whose components may NOT match position by position: copies of fuel blocks, some
+    lacking a component (first, middle or LAST in sorted order) or with a PERMUTED RADIAL ORDER (annular slug with the bond in the
+    centre next to solid slugs with the bond around them: same component kinds, different sorted order).
+    Clause judged on the representative that is actually built: when averaging is done by component, every representative
+    component is the weight-normalised mean over the members' components OF THE SAME KIND at that sorted position; members that do
+    not match position by position must lead to block-level averaging (or a refusal) - never to an average of unlike components."""
     import copy
 
     rng = random.Random(f"C20s-{ctx.seed}-{trial}")
     xg = w.xg
+    modes = ["intact", "permute-radial-order", "drop-last", "permute-radial-order-of-template", "drop-first", "drop-middle",
+             "drop-last-of-template", "permute-radial-order-all", "permute-and-drop-last"]
+    mode = modes[trial % len(modes)]
+    n = rng.randint(1, 4) if mode in ("intact", "drop-middle") else rng.randint(2, 4)
     with common.quiet():
-        bs = [copy.deepcopy(b) for b in rng.sample(w.fuel, rng.randint(1, 4))]
+        bs = [copy.deepcopy(b) for b in rng.sample(w.fuel, n)]
     for b in bs:
         b.setType("fuel")
-    mode = rng.choice(["intact", "intact", "drop-last", "drop-first", "drop-middle", "drop-last-of-template"])
-    victims = [] if mode == "intact" else ([bs[0]] if mode == "drop-last-of-template" else [rng.choice(bs)])
-    for b in victims:
-        comps = sorted(b.getComponents())
-        c = comps[-1] if "last" in mode else comps[0] if mode == "drop-first" else comps[len(comps) // 2]
-        b.remove(c)
-    abc = rng.random() < 0.8
+        b.p.flux = float(rng.randint(1, 2 ** 20)) * 2.0 ** 20
+        b.p.percentBu = common.dyadic(rng, 0, 30, 3)
+    if mode.startswith("permute"):
+        who = bs if mode.endswith("all") else [bs[0]] if mode.endswith("template") else rng.sample(bs[1:], rng.randint(1, len(bs) - 1))
+        for b in who:
+            make_annular(b, rng.choice([0.25, 0.3, 0.5]))
+    if "drop" in mode:
+        victims = [bs[0]] if mode == "drop-last-of-template" else [rng.choice(bs[1:] if len(bs) > 1 else bs)]
+        for b in victims:
+            comps = sorted(b.getComponents())
+            c = comps[-1] if "last" in mode else comps[0] if mode == "drop-first" else comps[len(comps) // 2]
+            b.remove(c)
+    abc = trial % 5 != 4
     bc = xg.AverageBlockCollection(w.allNucs, validBlockTypes=["fuel"], averageByComponent=abc)
+    bc.weightingParam = rng.choice([None, None, "flux"])
     for b in bs:
         bc.append(b)
-    fls = [[int(c.p.flags) for c in sorted(b.getComponents())] for b in bc.getCandidateBlocks()]
+    cands = bc.getCandidateBlocks()
+    fls = [[int(c.p.flags) for c in sorted(b.getComponents())] for b in cands]
     try:
         with common.quiet():
             out = "T" if bc._performAverageByComponent() else "F"
     except UnboundLocalError:
         out = "reject"
-    case = {"trial": trial, "members": len(bs), "mode": mode, "averageByComponent": abc}
+    case = {"trial": trial, "members": len(bs), "mode": mode, "averageByComponent": abc, "weightingParam": bc.weightingParam,
+            "sortedComponentOrders": [[c.name for c in sorted(b.getComponents())] for b in cands][:4]}
     ctx.count(f"block similarity: {mode}, averageByComponent={abc} -> {out}")
     ragged = len({len(f) for f in fls}) > 1
-    if not ragged and abc and out != "reject":
-        want = all(f == fls[-1] for f in fls)
-        if (out == "T") != want:
-            ctx.fail("by-component-choice", "by-component averaging is chosen exactly when the eligible members have the same component flags in the same order",
-                     case, observed=out, expected=want)
-    if ragged and out == "T":
+    rep, raised = None, None
+    if out != "reject":
         try:
             with common.quiet():
                 rep = bc.createRepresentativeBlock()
-            obs = f"representative with {len(rep.getComponents())} components from members with {sorted(len(f) for f in fls)}"
-        except IndexError:
-            obs = "IndexError in createRepresentativeBlock"
+        except (IndexError, ValueError) as e:
+            raised = type(e).__name__
+            ctx.count(f"block similarity: createRepresentativeBlock refuses ({raised})")
+    if ragged and out == "T":
+        obs = (f"representative with {len(rep.getComponents())} components from members with {sorted(len(f) for f in fls)}"
+               if rep is not None else f"{raised} in createRepresentativeBlock")
         ctx.extra.setdefault("observation_ragged_members_by_component", collections.Counter())[obs] += 1
+    if rep is not None:
+        ws = [((b.p[bc.weightingParam] or 1.0) if bc.weightingParam else 1.0) * (b.getVolume() or 1.0) for b in cands]
+        W = math.fsum(ws)
+        probe = [n_ for n_ in ("U238", "U235", "NA23", "FE56", "ZR90", "CR52") if n_ in w.allNucs]
+        if out == "T":
+            # by component: like with like, position by position
+            for i, rc in enumerate(sorted(rep.getComponents())):
+                members = [sorted(b.getComponents()) for b in cands]
+                unlike = [(b.getName(), (m[i].name if i < len(m) else None)) for b, m in zip(cands, members)
+                          if i >= len(m) or m[i].p.flags != rc.p.flags]
+                ccase = dict(case, position=i, component=rc.name)
+                if unlike:
+                    ctx.fail("by-component-averages-unlike-components",
+                             "by-component averaging pairs the members' components of the same kind at each sorted position; members that do "
+                             "not match position by position are averaged at block level (or refused), never component against unlike component",
+                             ccase, observed={"representative component": rc.name, "paired with": unlike[:3]},
+                             expected="block-level averaging or a refusal")
+                    break
+                for nm in probe:
+                    xs = [m[i].getNuclideNumberDensities([nm])[0] for m in members]
+                    got = rc.getNuclideNumberDensities([nm])[0]
+                    if any(xs) or got:
+                        oracle_mean(ctx, dict(ccase, nuclide=nm), ws, W, xs, got, "component-density")
+            ctx.count("block similarity: by-component representative judged component by component")
+        else:
+            for nm in probe:
+                xs = [b.getNuclideNumberDensities([nm])[0] for b in cands]
+                got = rep.getNuclideNumberDensities([nm])[0]
+                oracle_mean(ctx, dict(case, nuclide=nm), ws, W, xs, got, "density")
+            ctx.count("block similarity: block-level (smeared) representative judged against the block-level mean")
     ctx.case(("similarity", trial), nontrivial=True)
     line = "[" + ",".join("[" + ",".join(map(str, f)) + "]" for f in fls) + "]"
     return ([f"similar {'T' if abc else 'F'} {line}"],
@@ -1587,7 +1643,7 @@ def run(ctx):
         for t in range(ctx.pick(6, 48)):
             r, c, _ = trial_modified(ctx, w, t)
             req += r; checks += c
-        for t in range(ctx.pick(20, 150)):
+        for t in range(ctx.pick(36, 180)):
             r, c, _ = trial_similarity(ctx, w, t)
             req += r; checks += c
         if "observation_ragged_members_by_component" in ctx.extra:
